@@ -493,7 +493,8 @@ void orc_c20_run_end() {
     oracle_eval("C20.close-ledger");
     for (auto &c : R->k.closes) {
         if (c.by != sim::OWN_LIB) continue;
-        if (!c.was_open) VIOL("C20", "C20:close-of-closed-descriptor", "the library closed descriptor %d which was not open", c.fd);
+        if (!c.was_open && c.fd >= 0) VIOL("C20", "C20:close-of-closed-descriptor", "the library closed descriptor %d which was not open", c.fd);
+        if (!c.was_open) continue;   // (close(-1) after a failed open closes nothing: not a descriptor of anybody's)
         if (c.fd_owner == sim::OWN_USER) {
             bool ok = false;
             for (auto &ar : W->autoclose_regs)
